@@ -24,7 +24,7 @@ def _nontrivial(op, out):
 PROP = dict(
     lean_modules=["Octo.Props.C12"],
     required_theorems=["Octo.C12.len_spec", "Octo.C12.substr_spec", "Octo.C12.substr_total", "Octo.C12.position_spec",
-                       "Octo.C12.replace_spec", "Octo.C12.replace_unique", "Octo.C12.reverse_spec", "Octo.C12.reverse_chars",
+                       "Octo.C12.replace_spec", "Octo.C12.replace_unique", "Octo.C12.replace_empty_spec", "Octo.C12.like_literal_is_equality", "Octo.C12.reverse_spec", "Octo.C12.reverse_chars",
                        "Octo.C12.utf8_roundtrip", "Octo.C12.upper_ascii_spec", "Octo.C12.lower_ascii_spec",
                        "Octo.C12.re_accepts_iff_lang", "Octo.C12.likeSpec_meaning", "Octo.C12.like_error_iff",
                        "Octo.C12.like_spec", "Octo.C12.like_spec_bytes", "Octo.C12.tilde_spec", "Octo.C12.tildeStar_spec",
